@@ -350,16 +350,41 @@ impl<'a> JsStr<'a> {
                 return f64::from(value);
             }
 
-            // Slow path
-            let mut value: f64 = 0.0;
+            // Slow path: the base is a power of two, so the digits spell the binary expansion of
+            // the value. Keep its 64 most significant bits and whether a nonzero bit was dropped
+            // below them, then round once (to nearest, ties to even).
+            let bits_per_digit = base.trailing_zeros();
+            let mut mantissa: u64 = 0;
+            let mut dropped_bits: u32 = 0;
+            let mut sticky = false;
             for c in s {
-                if let Some(digit) = char::from(c).to_digit(base) {
-                    value = value.mul_add(f64::from(base), f64::from(digit));
-                } else {
+                let Some(digit) = char::from(c).to_digit(base) else {
                     return f64::NAN;
+                };
+                for i in (0..bits_per_digit).rev() {
+                    let bit = u64::from((digit >> i) & 1);
+                    if mantissa >> 63 == 0 {
+                        mantissa = (mantissa << 1) | bit;
+                    } else {
+                        dropped_bits = dropped_bits.saturating_add(1);
+                        sticky |= bit == 1;
+                    }
                 }
             }
-            return value;
+            let width = u64::BITS - mantissa.leading_zeros();
+            if width <= f64::MANTISSA_DIGITS {
+                // Nothing was dropped: a mantissa that did not fill up is the exact value.
+                return mantissa as f64;
+            }
+            let shift = width - f64::MANTISSA_DIGITS;
+            let half = 1_u64 << (shift - 1);
+            let low = mantissa & ((1_u64 << shift) - 1);
+            let mut rounded = mantissa >> shift;
+            if low > half || (low == half && (sticky || rounded & 1 == 1)) {
+                rounded += 1;
+            }
+            let exponent = shift.saturating_add(dropped_bits);
+            return (rounded as f64) * 2_f64.powi(i32::try_from(exponent).unwrap_or(i32::MAX));
         }
 
         fast_float2::parse(string).unwrap_or(f64::NAN)
